@@ -190,6 +190,29 @@ def deref (p : Option String) : String := p.getD ""
 /-- field access through a pointer the code has tested against nil -/
 def derefClass (p : Option IngressClassView) : IngressClassView := p.getD default
 
+/-- `append(slice, x)` -/
+def append1 {β : Type} (l : List β) (x : β) : List β := l ++ [x]
+
+/-- `fmt.Sprintf("%s/%s:%s", ev, res, fullname)` — the only format `compose` uses -/
+def sprintfEvResName (format ev res fullname : String) : String :=
+  if format = "%s/%s:%s" then ev ++ "/" ++ res ++ ":" ++ fullname else "<format not modelled>"
+
+/-- a `client.Object` as `compose` / `notify` see it -/
+structure ObjView where
+  ns : String
+  name : String
+deriving DecidableEq, Repr
+
+/-- the handler `hdlr`: resource type, full-sync flag, optional naming closure -/
+structure HdlrView where
+  res : String
+  full : Bool
+  hasName : Bool
+  name : ObjView → String
+
+/-- `q.AddRateLimited(rparam{fullsync})` on the log of enqueued items -/
+def enqueue (fx : List Bool) (full : Bool) : List Bool := fx ++ [full]
+
 /-- `workqueue.reloadHAProxy` (the mutex is not state) -/
 structure ReloadHAProxy where
   interval : Int
